@@ -3,6 +3,7 @@ CONSTANTS
   K = 4
   N = 2
   MaxFreeze = 1
+  MaxCancel = 0
   Twin = "none"
   Record = TRUE
 INVARIANTS
